@@ -137,7 +137,14 @@ func VHarnessC11Get() {
 	vMajor2 = vParam("major2") == 1
 	vSetNames()
 	r := vSetup(nproj, nver)
-	cfg, _ := vRootConfig(nproj, nver)
+	cfg, root := vRootConfig(nproj, nver)
+	if vParam("alias") == 1 {
+		// a second requirement name for project 0, possibly pinned to another version
+		av := vChoose("alias-version", nver)
+		cfg.Requirements["alias0"] = project.RequirementConfig{Path: vPath(0), Version: vVersion(0, av)}
+		// known finding D13: two names for one project at DIFFERENT versions
+		vRegion("D13-aliased-requirement-versions", root[0] > 0 && av != root[0]-1)
+	}
 	ctx := context.Background()
 	before := vListOf(cfg, r)
 
